@@ -28,18 +28,33 @@ CONFIGS = [default_config("csv", True), default_config("csv", False)]
 MUTATORS = {"insert", "insert_multiple", "update", "update_all", "remove", "remove_all", "drop_measurement"}
 
 
+def siblings(path):
+    """Other files in the database directory (what a crash would leave next to the database), as kernel bytes."""
+    d = os.path.dirname(path)
+    out = {}
+    try:
+        names = os.listdir(d)
+    except FileNotFoundError:
+        return out
+    for n in names:
+        p = os.path.join(d, n)
+        if p != path and os.path.isfile(p):
+            out[n] = ioproxy.kernel_bytes(p) or b""
+    return out
+
+
 class SnapshotMonitor(ioproxy.NullMonitor):
     def __init__(self, path):
         self.path = path
-        self.snaps = []  # (event repr, bytes)
+        self.snaps = []  # (event repr, database bytes, {sibling name: bytes})
         self.events = []
 
     def before(self, ev):
         self.events.append(ev)
-        self.snaps.append((repr(ev), ioproxy.kernel_bytes(self.path)))
+        self.snaps.append((repr(ev), ioproxy.kernel_bytes(self.path), siblings(self.path)))
 
     def final(self):
-        self.snaps.append(("<after last I/O call>", ioproxy.kernel_bytes(self.path)))
+        self.snaps.append(("<after last I/O call>", ioproxy.kernel_bytes(self.path), siblings(self.path)))
 
 
 def acceptable_states(old, new, op):
@@ -52,8 +67,12 @@ def acceptable_states(old, new, op):
     return acc
 
 
-def decode_snapshot(data, scratch, cfg):
-    """(contents by independent decoder, contents by fresh TinyFlux reader) or error strings."""
+def decode_snapshot(data, scratch, cfg, sibs=None):
+    """(contents by independent decoder, contents seen after a restart) or error strings.
+
+    The restart opens the database the way an application would (default access mode) in a directory holding
+    the database file AND whatever else the crash left next to it (temporary / backup / journal files).
+    """
     from tinyflux import TinyFlux
 
     try:
@@ -64,11 +83,19 @@ def decode_snapshot(data, scratch, cfg):
     try:
         with open(path, "wb") as f:
             f.write(data)
+        for name, b in (sibs or {}).items():
+            with open(os.path.join(os.path.dirname(path), name), "wb") as f:
+                f.write(b)
         try:
             with quiet_stdout():
                 db = TinyFlux(path, access_mode="r", auto_index=cfg["auto_index"])
                 fresh = norm_points(db.all(sorted=False))
                 db.close()
+                db = TinyFlux(path, auto_index=cfg["auto_index"])  # a normal restart
+                again = norm_points(db.all(sorted=False))
+                db.close()
+                if again != fresh:
+                    fresh = again
         except Exception as e:
             fresh = f"fresh TinyFlux reader: {type(e).__name__}: {e}"
     finally:
@@ -80,12 +107,14 @@ def check_snapshots(res, s, op, old, new, mon, scratch, origin="proxy"):
     acc = acceptable_states(old, new, op)
     seen = {}
     ok = True
-    for label, data in mon.snaps:
+    for snap in mon.snaps:
+        label, data = snap[0], snap[1]
+        sibs = snap[2] if len(snap) > 2 else {}
         res.count(f"{origin}.crash_points")
         if data is None:
             data_key = None
         else:
-            data_key = h64(data)
+            data_key = (h64(data), tuple(sorted((n, h64(b)) for n, b in sibs.items())))
         if data_key in seen:
             continue
         seen[data_key] = label
@@ -95,7 +124,9 @@ def check_snapshots(res, s, op, old, new, mon, scratch, origin="proxy"):
             verdict = "database file missing"
             ind = fresh = verdict
         else:
-            ind, fresh = decode_snapshot(data, scratch, s.cfg)
+            ind, fresh = decode_snapshot(data, scratch, s.cfg, sibs)
+            if sibs:
+                res.count(f"{origin}.states_with_leftover_files")
             verdict = None
             if isinstance(ind, str):
                 verdict = ind
@@ -174,7 +205,7 @@ def run_history(res, cfg, scratch, rng, hidx, kill_budget):
             if len(res.samples) < 3 and op["op"] in ("update", "remove", "insert_multiple") and len(old) >= 2 and len(mon.events) > 8:
                 res.sample({"config": cfg_name(cfg), "op": op if "q" not in op else dict(op, q=qast.show(op["q"])),
                             "rows_before": len(old), "rows_after": len(new),
-                            "crash_points": [lbl for lbl, _ in mon.snaps][:40]})
+                            "crash_points": [sn[0] for sn in mon.snaps][:40]})
             if not check_snapshots(res, s, op, old, new, mon, scratch):
                 return
             if do_kill:
@@ -228,11 +259,12 @@ def run_large_file(res, cfg, scratch, rng):
             new = [p.copy() for p in s.model.points]
             # keep distinct snapshots only (each is more than a megabyte)
             seen, snaps = set(), []
-            for label, data in mon.snaps:
-                key = None if data is None else h64(data)
+            for snap in mon.snaps:
+                label, data = snap[0], snap[1]
+                key = None if data is None else (h64(data), tuple(sorted(snap[2])))
                 if key not in seen:
                     seen.add(key)
-                    snaps.append((label, data))
+                    snaps.append(snap)
             mon.snaps = snaps
             if not check_snapshots(res, s, op, old, new, mon, scratch, origin="proxy"):
                 return
